@@ -621,6 +621,40 @@ func (idx *Index) Update(key []byte, location types.Block) error {
 	return nil
 }
 
+// UpdateIfAt is like Update, but only re-points the key if the index
+// currently maps it to the primary record at prevOffset. It returns an error,
+// and leaves the index unchanged, if the key is not in the index or has been
+// given a different location in the meantime.
+func (idx *Index) UpdateIfAt(key []byte, prevOffset types.Position, location types.Block) error {
+	bucket, err := idx.getBucketIndex(key)
+	if err != nil {
+		return err
+	}
+	indexKey := stripBucketPrefix(key, idx.sizeBits)
+
+	idx.bucketLk.Lock()
+	defer idx.bucketLk.Unlock()
+	records, err := idx.getRecordsFromBucket(bucket)
+	if err != nil {
+		return err
+	}
+	if records == nil {
+		return fmt.Errorf("no records found in index, unable to update key")
+	}
+	r := records.GetRecord(indexKey)
+	if r == nil {
+		return fmt.Errorf("key to update not found in index")
+	}
+	if r.Block.Offset != prevOffset {
+		return fmt.Errorf("key to update is no longer at primary offset %d", prevOffset)
+	}
+	newData := records.PutKeys([]KeyPositionPair{{r.Key, location}}, r.Pos, r.NextPos())
+
+	idx.outstandingWork += types.Work(len(newData) + BucketPrefixSize + sizePrefixSize)
+	idx.nextPool[bucket] = newData
+	return nil
+}
+
 // Remove removes a key from the index.
 func (idx *Index) Remove(key []byte) (bool, error) {
 	// Get record list and bucket index
